@@ -528,8 +528,8 @@ func (c *Chunker) buildSections(doc *model.Document) []*Section {
 
 		// Process headings on this page
 		for _, heading := range page.Layout.Headings {
-			// If we have content before this heading, add it
-			if len(preambleContent) > 0 && len(sectionStack) == 0 {
+			// If we have content before the first section heading, add it
+			if len(preambleContent) > 0 && len(sectionStack) == 0 && heading.Level <= c.config.MinHeadingLevel {
 				// Content before first heading
 				preambleSection := &Section{
 					Title:     "",
@@ -584,14 +584,23 @@ func (c *Chunker) buildSections(doc *model.Document) []*Section {
 				sectionStack = append(sectionStack, newSection)
 			} else {
 				// Minor heading - include in current section's content
+				elem := ContentElement{
+					Type: model.ElementTypeHeading,
+					Text: heading.Text,
+					Page: pageIndex,
+					BBox: heading.BBox,
+				}
 				if len(sectionStack) > 0 {
 					currentSection := sectionStack[len(sectionStack)-1]
-					currentSection.Content = append(currentSection.Content, ContentElement{
-						Type: model.ElementTypeHeading,
-						Text: heading.Text,
-						Page: pageIndex,
-						BBox: heading.BBox,
-					})
+					currentSection.Content = append(currentSection.Content, elem)
+					currentSection.PageEnd = pageIndex
+				} else {
+					// No section is open yet: it belongs to the content before the first section
+					preambleContent = append(preambleContent, elem)
+					if preambleStartPage == 0 {
+						preambleStartPage = pageIndex
+					}
+					preambleEndPage = pageIndex
 				}
 			}
 		}
@@ -642,8 +651,8 @@ func (c *Chunker) buildSections(doc *model.Document) []*Section {
 		}
 	}
 
-	// Handle any remaining preamble content
-	if len(preambleContent) > 0 && len(sections) == 0 {
+	// Handle any remaining preamble content (no section heading ever followed it)
+	if len(preambleContent) > 0 {
 		preambleSection := &Section{
 			Title:     "",
 			Path:      nil,
